@@ -104,8 +104,13 @@ Fixpoint general_nonzero (fuel : nat) (draw : Z -> Z * Z) (s : Z) : option (Z * 
   | O => None
   | S f => let '(a, s1) := draw s in if a =? 0 then general_nonzero f draw s1 else Some (a, s1)
   end.
-(* GIV_randIter / ModularRandIter constructors: _size(size ? size : max(cardinality, 1)) / (size ? size : cardinality) *)
-Definition giv_randiter_size (size card : Z) : Z := if size =? 0 then Z.max card 1 else size.
+(* GIV_randIter constructor.  As first read:   _size(size ? size : std::max(F.cardinality(), Residu_t(1)))
+   repaired (Params.giv_randiter_clamps):    _size((size && (!F.cardinality() || size < F.cardinality())) ? size : std::max(F.cardinality(), Residu_t(1)))
+   (cardinality 0 = infinite domain, e.g. Poly1Dom) *)
+Definition giv_randiter_size (size card : Z) : Z :=
+  if giv_randiter_clamps
+  then (if negb (size =? 0) && ((card =? 0) || (size <? card)) then size else Z.max card 1)
+  else (if size =? 0 then Z.max card 1 else size).
 
 (* GFqDom<TT>::random(g, a, s):        a = Rep((UTT)(g()) % s);            return a = (a<0 ? a+(Rep)_q : a);
    GFqDom<TT>::nonzerorandom(g, a, s): a = Rep(((UTT)(g()) % (s-1)) + 1);  return a = (a<0 ? a+(Rep)_q : a);
@@ -234,6 +239,57 @@ Section Oracle.
     | O => ([], i)
     | S k => let '(r, i1) := rii_next unsigned_ exact bits r0 i in
              let '(rs, i2) := rii_draws k unsigned_ exact bits r i1 in (r :: rs, i2)
+    end.
+
+  (* RandomIntegerIterator as an object with state (_bits, _integer):
+       constructor          : _bits(samplesize.bitsize() | 30), _integer(), then operator++
+       setBitsize(b)        : _bits = b; operator++
+       operator++           : nextRandom(_integer)                 (draws into the stored value)
+       random(a), (a), (), random() : nextRandom(a)                (draws into the caller's variable; state unchanged)
+       operator*, randomInteger()   : the stored value
+       copy constructor / operator= : copy (_bits, _integer)       (no draw; the model keeps the same record)
+       ROther ss            : another iterator is constructed (one draw from the shared GMP state) and then overwritten *)
+  Record rii_state : Type := { rii_b : Z; rii_v : Z }.
+  Inductive rii_op : Type := RSetBits (b : Z) | RIncr | RDraw (a0 : Z) | RDeref | ROther (ss : option Z).
+  Definition rii_init (u e : bool) (ss : option Z) (i : nat) : rii_state * nat :=
+    let b := rii_bits ss in let '(v, i1) := rii_next u e b 0 i in ({| rii_b := b; rii_v := v |}, i1).
+  Definition rii_step (u e : bool) (st : rii_state) (op : rii_op) (i : nat) : rii_state * option Z * nat :=
+    match op with
+    | RSetBits b => let '(v, i1) := rii_next u e b (rii_v st) i in ({| rii_b := b; rii_v := v |}, None, i1)
+    | RIncr => let '(v, i1) := rii_next u e (rii_b st) (rii_v st) i in ({| rii_b := rii_b st; rii_v := v |}, None, i1)
+    | RDraw a0 => let '(v, i1) := rii_next u e (rii_b st) a0 i in (st, Some v, i1)
+    | RDeref => (st, Some (rii_v st), i)
+    | ROther ss => let '(_, i1) := rii_init u e ss i in (st, None, i1)
+    end.
+  (* a run: after every step the observer reads (getBitsize(), *it) and the value the step returned, if any *)
+  Fixpoint rii_run (u e : bool) (st : rii_state) (ops : list rii_op) (i : nat) : list (Z * Z * option Z) * rii_state * nat :=
+    match ops with
+    | [] => ([], st, i)
+    | op :: rest => let '(st1, o, i1) := rii_step u e st op i in
+                    let '(obs, st2, i2) := rii_run u e st1 rest i1 in
+                    ((rii_b st1, rii_v st1, o) :: obs, st2, i2)
+    end.
+
+  (* QField<Rational>::random(g, r, int64_t s)  { return r = Rational(Integer::random(s), Integer::nonzerorandom(s)); }
+     (T = int64_t: the 2exp forms).  C++ leaves the evaluation order of the two arguments unspecified: den_first.
+     Rational(n, d) reduces by the gcd (d > 0 here).
+     random(g, r, const Rep& b) { Integer::random(rnum, b.nume()); Integer::nonzerorandom(rden, b.deno()); r = Rational(rnum, rden); }
+     nonzerorandom: the numerator is drawn with nonzerorandom too. *)
+  Definition rat_reduce (n d : Z) : Z * Z := let g := Z.gcd n d in (n / g, d / g).
+  Definition qfield_draw (fuel : nat) (nz : bool) (by_int : bool) (bn bd : Z) (i : nat) (want_num : bool) : option (Z * nat) :=
+    if want_num then
+      (if nz then (if by_int then nonzerorandom_int fuel true bn i else nonzerorandom_2exp fuel true bn i)
+       else Some (if by_int then random_lessthan true bn i else random_lessthan_2exp true bn i))
+    else (if by_int then nonzerorandom_int fuel true bd i else nonzerorandom_2exp fuel true bd i).
+  Definition qfield_random (fuel : nat) (nz by_int den_first : bool) (bn bd : Z) (i : nat) : option (Z * Z * nat) :=
+    match qfield_draw fuel nz by_int bn bd i (negb den_first) with
+    | None => None
+    | Some (x, i1) =>
+      match qfield_draw fuel nz by_int bn bd i1 den_first with
+      | None => None
+      | Some (y, i2) => let '(n, d) := if den_first then (y, x) else (x, y) in
+                        let '(rn, rd) := rat_reduce n d in Some (rn, rd, i2)
+      end
     end.
 
   (* ModularRandIter<Modular<Integer>>::operator()(elt) : random_lessthan(tmp, _size); _ring.init(elt, tmp)
